@@ -167,11 +167,43 @@ def _run_realign(ctx, spec, rng):
         ctx.sample("O3:realign-product", {"dims": [a, b, c, d]})
 
 
+def _run_cvx_rect(ctx, spec, rng):
+    """Rectangular cvxpy Variable (local dimensions >= 2, as for numeric rectangular inputs)."""
+    import cvxpy
+
+    from toqito.channels import partial_transpose
+
+    n = 2 if (spec[1] // 8) % 3 else 3
+    dr = gen.dims(rng, n, 2, 3, max_total=18)
+    dc = gen.dims(rng, n, 2, 3, max_total=18)
+    if dr == dc:
+        dc = list(dc)
+        dc[0] = 5 - dc[0]
+    rows, cols = int(np.prod(dr)), int(np.prod(dc))
+    s = sorted(int(v) for v in rng.permutation(n)[:int(rng.integers(1, n + 1))])
+    cplx = bool((spec[1] // 4) % 2)
+    var = cvxpy.Variable((rows, cols), complex=cplx)
+    val = gen.rc(rng, rows, cols) if cplx else rng.normal(size=(rows, cols))
+    var.value = val
+    dimarg = [list(dr), list(dc)] if rng.random() < 0.6 else np.array([dr, dc])
+    expr = ctx.call(partial_transpose, var, _sysarg(rng, s), dimarg)
+    if expr is FAILED:
+        return
+    want = ref.partial_transpose(val, s, dr, dc)
+    got = expr.value
+    ok_shape = tuple(expr.shape) == want.shape
+    dev = float(np.abs(np.asarray(got) - want).max()) if ok_shape and got is not None else float("inf")
+    ctx.check("O4:cvxpy-value", None, dev=dev, tol=1e-12, sig=("rectangular", cplx, n, len(s), rows > cols), mech="partial_transpose:cvxpy-value[rectangular]",
+              detail={"dr": dr, "dc": dc, "s": s, "shape": list(expr.shape), "want_shape": list(want.shape)})
+
+
 def _run_cvx(ctx, spec, rng):
     import cvxpy
 
     from toqito.channels import partial_transpose
 
+    if spec[1] % 4 == 3:
+        return _run_cvx_rect(ctx, spec, rng)
     n = int(rng.integers(2, 4))
     d = gen.dims(rng, n, 1, 3, max_total=27)
     big = int(np.prod(d))
